@@ -61,6 +61,12 @@ pub const SCENARIOS: &[(&str, u8)] = &[
     ("resize-grow-spare-capacity", F_CLONE),
     ("extend-spare-capacity", F_ITER),
     ("insert-remove-then-clone-spare", F_CLONE),
+    ("alloc_slice_fill_with/closure-allocates-and-keeps", F_CALLBACK),
+    ("alloc_with/closure-allocates-and-keeps", F_CALLBACK),
+    ("alloc_try_with/closure-allocates-and-keeps", F_CALLBACK),
+    ("clone_from-shorter-source", F_CLONE),
+    ("clone_from-longer-source", F_CLONE),
+    ("clone_from/drop-panics", F_DROP),
     ("into_iter-for_each", F_CALLBACK),
     ("into_iter-fold", F_CALLBACK),
     ("into_iter-max_by_key", F_CALLBACK),
@@ -156,6 +162,17 @@ fn exec<'b>(sc: usize, b: &'b Bump, slot: &mut Option<BVec<'b, Tracked>>, held: 
         "clone" => {
             let c = slot.as_ref().unwrap().clone();
             held.extend(c.into_iter());
+        }
+        "clone_from-shorter-source" | "clone_from-longer-source" | "clone_from/drop-panics" => {
+            // the target already holds values; the source is shorter / longer than it
+            let v = slot.as_mut().unwrap();
+            let n = if name == "clone_from-longer-source" { v.len() + extra.len().min(3) + 1 } else { (v.len() / 2).max(1) };
+            let mut src: BVec<Tracked> = BVec::with_capacity_in(n, b);
+            for i in 0..n {
+                src.push(Tracked::new(extra.get(i % extra.len().max(1)).copied().unwrap_or(7) + i as u32));
+            }
+            v.clone_from(&src);
+            held.extend(src.into_iter());
         }
         "extend_from_slice-spare-capacity" | "resize-grow-spare-capacity" | "extend-spare-capacity" | "insert-remove-then-clone-spare" => {
             // the vector already has room (and stale bit patterns of removed elements) behind its length
@@ -327,6 +344,36 @@ fn exec<'b>(sc: usize, b: &'b Bump, slot: &mut Option<BVec<'b, Tracked>>, held: 
             let bx = slot.take().unwrap().into_boxed_slice();
             drop(bx);
         }
+        "alloc_slice_fill_with/closure-allocates-and-keeps" => {
+            // every call of the initialiser takes a block of the same arena and keeps it
+            let s = b.alloc_slice_fill_with(extra.len(), |i| {
+                keep_block(b, 5 + i * 7);
+                ledger::fuse_point(F_CALLBACK);
+                Tracked::new(extra[i])
+            });
+            for x in s.iter() {
+                held.push(unsafe { std::ptr::read(x) });
+            }
+        }
+        "alloc_with/closure-allocates-and-keeps" => {
+            let x = b.alloc_with(|| {
+                keep_block(b, 40);
+                ledger::fuse_point(F_CALLBACK);
+                keep_block(b, 3);
+                Tracked::new(3)
+            });
+            held.push(unsafe { std::ptr::read(x) });
+        }
+        "alloc_try_with/closure-allocates-and-keeps" => {
+            let r: Result<&mut Tracked, ()> = b.alloc_try_with(|| {
+                keep_block(b, 600);
+                ledger::fuse_point(F_CALLBACK);
+                Ok(Tracked::new(4))
+            });
+            if let Ok(x) = r {
+                held.push(unsafe { std::ptr::read(x) });
+            }
+        }
         "alloc_slice_fill_with" => {
             let s = b.alloc_slice_fill_with(extra.len(), |i| {
                 ledger::fuse_point(F_CALLBACK);
@@ -415,6 +462,16 @@ fn exec<'b>(sc: usize, b: &'b Bump, slot: &mut Option<BVec<'b, Tracked>>, held: 
     }
 }
 
+thread_local! {
+    /// blocks a callback allocated in the arena and kept: (address, length, fill byte)
+    static KEPT: std::cell::RefCell<Vec<(usize, usize, u8)>> = const { std::cell::RefCell::new(Vec::new()) };
+}
+fn keep_block(b: &Bump, n: usize) {
+    let byte = 0xC0 | (n as u8 & 0x3f);
+    let s = b.alloc_slice_fill_copy(n, byte);
+    KEPT.with(|k| k.borrow_mut().push((s.as_ptr() as usize, n, byte)));
+}
+
 fn post_checks(rep: &mut Report, sc: usize, k: u64, phase: &str, slot: &Option<BVec<Tracked>>, held: &[Tracked], fired: bool) {
     let name = SCENARIOS[sc].0;
     let g = ledger::take_garbage_drops();
@@ -463,6 +520,7 @@ fn one_run(rep: &mut Report, sc: usize, keys: &[u32], extra: &[u32], fuse: Optio
     ledger::set_side(1);
     let mut slot: Option<BVec<Tracked>> = Some(BVec::from_iter_in(keys.iter().map(|k| Tracked::new(*k)), &b));
     let mut held: Vec<Tracked> = Vec::new();
+    KEPT.with(|k| k.borrow_mut().clear());
     match fuse {
         Some(k) => ledger::arm(kinds, k),
         None => ledger::count_only(kinds),
@@ -489,6 +547,24 @@ fn one_run(rep: &mut Report, sc: usize, keys: &[u32], extra: &[u32], fuse: Optio
     }
     if unsafe { (&*canary).iter().any(|x| *x != 0x5A) } {
         rep.violate("C16", format!("C16/{}/neighbour-changed", name), String::new());
+    }
+    // blocks the callback took from the arena before the panic are still the caller's: later requests
+    // neither land on them nor change them
+    let kept: Vec<(usize, usize, u8)> = KEPT.with(|k| k.borrow().clone());
+    if !kept.is_empty() {
+        let later = b.alloc_slice_fill_copy(48, 0x11u8);
+        let (lp, ll) = (later.as_ptr() as usize, later.len());
+        for (kp, kl, byte) in &kept {
+            if lp < kp + kl && *kp < lp + ll {
+                rep.violate("C16", format!("C16/{}/arena-handed-out-a-block-the-callback-still-owns", name), format!("[{:#x}, +{}) vs kept [{:#x}, +{}) (panic at callback #{})", lp, ll, kp, kl, k));
+                break;
+            }
+            if unsafe { std::slice::from_raw_parts(*kp as *const u8, *kl) }.iter().any(|x| x != byte) {
+                rep.violate("C16", format!("C16/{}/block-kept-by-the-callback-changed", name), format!("kept [{:#x}, +{}) (panic at callback #{})", kp, kl, k));
+                break;
+            }
+        }
+        rep.bump("c16.kept_blocks_checked");
     }
     match followup {
         0 => {
